@@ -87,12 +87,12 @@ func (c *RunCtx) Fail(v *Violation) (known bool) {
 
 // Stats are counters and sets measured by the run(s).
 type Stats struct {
-	Counters map[string]int64    `json:"counters"`
-	Sigs     map[uint64]struct{} `json:"-"`
-	States   map[uint64]struct{} `json:"-"`
-	SigList  []uint64            `json:"sigs,omitempty"`
-	StateList []uint64           `json:"states,omitempty"`
-	Samples  []Sample            `json:"samples,omitempty"`
+	Counters  map[string]int64    `json:"counters"`
+	Sigs      map[uint64]struct{} `json:"-"`
+	States    map[uint64]struct{} `json:"-"`
+	SigList   []uint64            `json:"sigs,omitempty"`
+	StateList []uint64            `json:"states,omitempty"`
+	Samples   []Sample            `json:"samples,omitempty"`
 }
 
 type Sample struct {
@@ -170,7 +170,7 @@ type Engine interface {
 
 var registry = map[string]Engine{}
 
-func Register(e Engine) { registry[e.Name()] = e }
+func Register(e Engine)      { registry[e.Name()] = e }
 func Get(name string) Engine { return registry[name] }
 func Names() []string {
 	var out []string
